@@ -2,7 +2,7 @@
    Model: coq/model/ParamShift.v (ShiftedParameters._get_derivative bookkeeping, evaluation of a shift
    object, expectation functions of sinusoidal form). *)
 From Coq Require Import ZArith List Reals.
-From QPM Require Import ParamShift.
+From QPM Require Import ParamShift NumGrad.
 Import ListNotations.
 Local Open Scope R_scope.
 
@@ -64,6 +64,15 @@ Theorem hessian_is_symmetric :
   = deval E base (get_derivative out ci (get_derivative out cj S)).
 Proof. intros E HE base out ci cj S. exact (hessian_symmetric E base out ci cj S HE). Qed.
 Print Assumptions hessian_is_symmetric.
+
+(* the numerical gradient (E(x + delta/2 e_i) - E(x - delta/2 e_i)) / delta converges, as delta -> 0, to the derivative,
+   i.e. to the value of the parameter-shift derivative object *)
+Theorem numerical_gradient_converges : forall T P x d, (depth T <= P)%nat ->
+  forall eps, 0 < eps -> exists dl, 0 < dl /\ forall delta, delta <> 0 -> Rabs delta < dl ->
+  Rabs (central_difference (fun t => teval T 0 (line x d t)) 0 delta
+        - deval (teval T 0) (line x d 0) (get_derivative (seq 0 P) d [([], 1)])) < eps.
+Proof. exact numerical_gradient_converges_to_parameter_shift. Qed.
+Print Assumptions numerical_gradient_converges.
 
 (* non-vacuity: a two-angle expectation function cos(f0) sin(f1) + 2 with a shared input parameter *)
 Example c09_example :
